@@ -125,7 +125,7 @@ func ruleCaretAlign(p *Prog, r *Result) {
 			switch x := v.(type) {
 			case *ssa.Call:
 				g := x.Call.StaticCallee()
-				return g != nil && p.qualName(g) == "strings.TrimSpace"
+				return g != nil && (p.qualName(g) == "strings.TrimSpace" || p.qualName(g) == "strings.Trim")
 			case *ssa.Slice:
 				return rec(x.X)
 			case *ssa.Phi:
@@ -155,6 +155,49 @@ func ruleCaretAlign(p *Prog, r *Result) {
 	if T == nil {
 		r.undecided("anchor: the concatenation `prefix + shown text` was not found in outputQueryAndErrPos")
 		return
+	}
+	// (0) the renderer and the lexer agree on what a blank is: the shown text is the query without the blanks at
+	// its ends, and an offset is an offset into the query as the lexer read it. The lexer separates words at its
+	// own set of (ASCII) blanks and takes every other byte as part of a word, so the renderer trims exactly that
+	// set - strings.TrimSpace also removes the Unicode blanks, which the lexer reports as (part of) a token
+	if split := p.MethodByName("Lexer", "Split"); split != nil {
+		lexBlanks := map[byte]bool{}
+		allInstrs(split, func(in ssa.Instruction) {
+			if bo, ok := in.(*ssa.BinOp); ok && bo.Op == token.EQL {
+				if k, ok := constInt(bo.Y); ok && (k == ' ' || (k >= 9 && k <= 13)) {
+					lexBlanks[byte(k)] = true
+				}
+			}
+		})
+		trimOK, trimDesc := false, "no trimming call found"
+		allInstrs(fn, func(in ssa.Instruction) {
+			c, ok := in.(*ssa.Call)
+			if !ok {
+				return
+			}
+			switch p.calleeName(&c.Call) {
+			case "strings.TrimSpace":
+				trimDesc = "strings.TrimSpace at " + p.InstrPos(c) + " (removes the Unicode blanks too)"
+			case "strings.Trim":
+				if cs, ok := constString(c.Call.Args[1]); ok {
+					set := map[byte]bool{}
+					for i := 0; i < len(cs); i++ {
+						set[cs[i]] = true
+					}
+					same := len(set) == len(lexBlanks)
+					for b := range lexBlanks {
+						if !set[b] {
+							same = false
+						}
+					}
+					trimDesc = fmt.Sprintf("strings.Trim(.., %q) at %s", cs, p.InstrPos(c))
+					if same {
+						trimOK = true
+					}
+				}
+			}
+		})
+		r.add(trimOK && len(lexBlanks) > 0, "trim-set", p.Pos(fn.Pos()), fmt.Sprintf("the shown text is the query trimmed by exactly the %d blank characters the lexer separates words at: %s", len(lexBlanks), trimDesc))
 	}
 	// (1) prefix pairing: expand X and E in lock-step
 	type pe struct {
@@ -1013,6 +1056,10 @@ func ruleAliasGuard(p *Prog, r *Result) {
 		}
 		return found
 	}
+	// behindCycleGuard: the instruction (in ValidateFields or in a function literal made there) is only reached after
+	// the alias-cycle guard ran in ValidateFields: resolving names before the fields are checked is as safe as
+	// resolving them while they are checked
+	var behindCycleGuard func(caller *ssa.Function, in ssa.Instruction) bool
 	reachesGet := func(f *ssa.Function) bool {
 		found := false
 		for _, g := range p.staticClosure(f, 3, nil) {
@@ -1023,6 +1070,40 @@ func ruleAliasGuard(p *Prog, r *Result) {
 			})
 		}
 		return found
+	}
+	behindCycleGuard = func(caller *ssa.Function, in ssa.Instruction) bool {
+		at := in
+		for caller != vf {
+			par := caller.Parent()
+			if par == nil {
+				return false
+			}
+			var mk ssa.Instruction
+			allInstrs(par, func(x ssa.Instruction) {
+				if mc, ok := x.(*ssa.MakeClosure); ok && mc.Fn == ssa.Value(caller) {
+					mk = x
+				}
+			})
+			if mk == nil {
+				return false
+			}
+			caller, at = par, mk
+		}
+		okg := false
+		allInstrs(vf, func(x ssa.Instruction) {
+			c, ok := x.(*ssa.Call)
+			if !ok {
+				return
+			}
+			g := c.Call.StaticCallee()
+			if g == nil || !p.InPkg(g) || reachesCheck(g) || !reachesGet(g) {
+				return
+			}
+			if instrDominates(x, at) {
+				okg = true
+			}
+		})
+		return okg
 	}
 	// (1) rewriting sites live in Check methods (or helpers called only from them)
 	nsites := 0
@@ -1066,7 +1147,7 @@ func ruleAliasGuard(p *Prog, r *Result) {
 					allInstrs(caller, func(in2 ssa.Instruction) {
 						if c, ok := in2.(ssa.CallInstruction); ok && c.Common().StaticCallee() == fn {
 							ncall++
-							if caller.Name() != "Check" {
+							if caller.Name() != "Check" && !behindCycleGuard(caller, in2) {
 								okv = false
 							}
 						}
@@ -2325,6 +2406,84 @@ func ruleCheckOrder(p *Prog, r *Result) {
 		})
 	}
 	r.add(refreshed, "(*SelectStmt).ValidateFields|types-refreshed", p.Pos(vf.Pos()), "after the fields were checked their types are stored into FieldTypes from ReturnType")
+	// the names in ALL fields are resolved before the first field is typed: while a field is checked its operands
+	// are asked for their types, and a field listed later whose own names are still plain names has another type
+	// than it will have (`a + 'x'` is a number as long as `a` is just a name). So every call in ValidateFields
+	// that reaches a Check lies behind a loop that reaches the name rewriting (tryRewriteExpr) but no Check
+	reachesStatic := func(g *ssa.Function, name string) bool {
+		for _, h := range p.staticClosure(g, 3, nil) {
+			if h.Name() == name {
+				return true
+			}
+		}
+		return false
+	}
+	var resolveLoops []*Loop
+	for _, L := range naturalLoops(vf) {
+		res, chk := false, false
+		for b := range L.Body {
+			for _, in := range b.Instrs {
+				ci, ok := in.(ssa.CallInstruction)
+				if !ok {
+					continue
+				}
+				var callees []*ssa.Function
+				if g := ci.Common().StaticCallee(); g != nil {
+					callees = append(callees, g)
+				}
+				for _, a := range ci.Common().Args {
+					if mc, ok := a.(*ssa.MakeClosure); ok {
+						callees = append(callees, mc.Fn.(*ssa.Function))
+					}
+					if ct, ok := a.(*ssa.ChangeType); ok {
+						if mc, ok := ct.X.(*ssa.MakeClosure); ok {
+							callees = append(callees, mc.Fn.(*ssa.Function))
+						}
+					}
+				}
+				for _, g := range callees {
+					if !p.InPkg(g) {
+						continue
+					}
+					if reachesStatic(g, "tryRewriteExpr") {
+						res = true
+					}
+					if reaches(g, "Check") || g.Name() == "Check" {
+						chk = true
+					}
+				}
+				if ci.Common().IsInvoke() && ci.Common().Method.Name() == "Check" {
+					chk = true
+				}
+			}
+		}
+		if res && !chk {
+			resolveLoops = append(resolveLoops, L)
+		}
+	}
+	nChk := 0
+	allInstrs(vf, func(in ssa.Instruction) {
+		c, ok := in.(*ssa.Call)
+		if !ok {
+			return
+		}
+		g := c.Call.StaticCallee()
+		if g == nil || !p.InPkg(g) || !(reaches(g, "Check") || g.Name() == "Check") {
+			return
+		}
+		// the alias-cycle guard consults the names only
+		if reachesStatic(g, "GetNamedExpr") && !reaches(g, "Check") {
+			return
+		}
+		nChk++
+		behind := false
+		for _, L := range resolveLoops {
+			if !L.Body[in.Block()] && L.Header.Dominates(in.Block()) {
+				behind = true
+			}
+		}
+		r.add(behind, fmt.Sprintf("(*SelectStmt).ValidateFields|resolve-first#%d", nChk), p.InstrPos(in), "a select field is type-checked only after a loop has resolved the names in all the fields (a field listed earlier may use one listed later)")
+	})
 }
 
 // ---------------- NAMEOWNER ----------------
@@ -2476,6 +2635,37 @@ func ruleCmpMixed(p *Prog, r *Result) {
 	if fn == nil {
 		r.undecided("anchor: the comparator entry (Type, cell, cell) of orderColumnsRow was not found")
 		return
+	}
+	// the float comparator is a total order: NaN is neither equal to, less than nor greater than anything, so a
+	// comparator built from == and < alone calls it `after everything` from both sides, which is not transitive and
+	// lets the heap emit the ordinary numbers out of order. It tests for NaN (x != x, or math.IsNaN)
+	for _, f := range p.Funcs {
+		if f.Signature.Recv() == nil || typeName(deref(f.Signature.Recv().Type())) != "orderColumnsRow" || len(f.Params) < 3 {
+			continue
+		}
+		isF := func(pa *ssa.Parameter) bool {
+			bt, ok := pa.Type().Underlying().(*types.Basic)
+			return ok && bt.Kind() == types.Float64
+		}
+		if !isF(f.Params[1]) || !isF(f.Params[2]) {
+			continue
+		}
+		nan := false
+		for _, g := range p.staticClosure(f, 2, nil) {
+			allInstrs(g, func(in ssa.Instruction) {
+				switch x := in.(type) {
+				case *ssa.BinOp:
+					if x.Op == token.NEQ && x.X == x.Y {
+						nan = true
+					}
+				case *ssa.Call:
+					if p.calleeName(&x.Call) == "math.IsNaN" {
+						nan = true
+					}
+				}
+			})
+		}
+		r.add(nan, p.FName(f)+"|nan-total", p.Pos(f.Pos()), "the float comparator gives NaN a place of its own (a comparator built from == and < alone is not transitive once a NaN is among the values)")
 	}
 	tpParam, lp, rp := fn.Params[1], fn.Params[2], fn.Params[3]
 	tstr, _ := p.constOf("TSTR")
@@ -3709,6 +3899,44 @@ func ruleAliasWalk(p *Prog, r *Result) {
 				})
 				if sees && memo {
 					okv = true
+				}
+				// ... or never walks into a reference at all: behind the test for a reference it only returns false
+				if sees && !memo {
+					cuts := true
+					found := false
+					allInstrs(cb, func(x ssa.Instruction) {
+						ta, ok := x.(*ssa.TypeAssert)
+						if !ok || typeName(deref(ta.AssertedType)) != "FieldReferenceExpr" || !ta.CommaOk {
+							return
+						}
+						okv2 := extractOf2(ta, 1)
+						if okv2 == nil {
+							return
+						}
+						found = true
+						for _, b := range cb.Blocks {
+							ret := retOf(b)
+							if ret == nil || !trueEdgeDominates(okv2, b) {
+								continue
+							}
+							if bv, isB := constBool(retVal(ret, 0)); !isB || bv {
+								cuts = false
+							}
+						}
+						// some return must lie behind the test
+						any := false
+						for _, b := range cb.Blocks {
+							if retOf(b) != nil && trueEdgeDominates(okv2, b) {
+								any = true
+							}
+						}
+						if !any {
+							cuts = false
+						}
+					})
+					if found && cuts {
+						okv = true
+					}
 				}
 			}
 			r.add(okv, key, p.InstrPos(in), "the callback handed to Walk recognises alias references and cuts the walk at a target it has already visited")
